@@ -33,6 +33,9 @@ def cases(chk: common.Check) -> list[dict]:
     # F-H1 witness (fixed): a log backlog larger than a pipe buffer at exit
     cs.append({'func': 'noisy', 'args': [300], 'logging': True, 'classes': ['returned 1']})
     cs.append({'func': 'noisy', 'args': [3000], 'logging': True, 'classes': ['returned 1']})
+    # the function returns at once but the process takes 4.5 s to exit (a non-daemon thread): awaiting the handle yields only then
+    cs.append({'func': 'linger', 'args': [4.5], 'logging': False, 'classes': ['returned 1'], 'timeout': 30})
+    cs.append({'func': 'linger', 'args': [4.5], 'logging': True, 'classes': ['returned 1'], 'timeout': 30})
     instants = [0.0, 0.12, 0.3] if chk.tier == 'quick' else [0.0, 0.02, 0.05, 0.08, 0.12, 0.2, 0.3, 0.35, 0.4]
     for kind, signo in (('interrupt', 2), ('terminate', 15), ('kill', 9)):
         for at in instants:
